@@ -137,6 +137,10 @@ def oracle(c):
         nf_requested = [e for e in entries if e['outcome']['kind'] == 'not_found']
         if newly_marked and not nf_requested:
             bad.append(f'package {name}: marked nonexistent although the registry never said so (outcomes {[e["outcome"]["kind"] for e in entries]})')
+        # ... and whenever the registry said so (and the cache accepted the mark)
+        if requested.count(name) == 1 and len(entries) == 1 and entries[0]['outcome']['kind'] == 'not_found' and not ({'mark', 'claim'} & faults):
+            if ra is None or ra[5] != 1:
+                bad.append(f'package {name}: the registry said it does not exist, but it is not marked nonexistent (row {ra})')
         # versions stored only if returned by the registry
         vb = vers_b.get(rb[0], set()) if rb else set()
         va = vers_a.get(ra[0], set()) if ra else set()
